@@ -162,6 +162,31 @@ def build(desc, detour=False, extra_node="zz9", relabel=None):
             h.add_edge(ee[::-1] if detour is True else ee, e[1], **kw)
     if detour is True:
         h.remove_node(xn)  # drops the extra hyperedge with it
+        if desc["weighted"] and len(desc["edges"]) >= 2:
+            # weighted: insert the record that went in FIRST (the last of the descriptor: insertion is reversed here) once
+            # more (its weight accumulates) and set the weight back
+            e = desc["edges"][-1]
+            md = desc["emd"].get(e)
+            kw = {"weight": 1}
+            if md:
+                kw["metadata"] = dict(md)
+            w0 = desc["weights"][-1]
+            if k == "H":
+                ee = tuple(R(x) for x in e)
+                h.add_edge(ee, **kw)
+                h.set_weight(ee, w0)
+            elif k == "D":
+                ee = (tuple(R(x) for x in e[0]), tuple(R(x) for x in e[1]))
+                h.add_edge(ee, **kw)
+                h.set_weight(ee, w0)
+            elif k == "T":
+                ee = tuple(R(x) for x in e[1])
+                h.add_edge(ee, e[0], **kw)
+                h.set_weight(ee, e[0], w0)
+            else:
+                ee = tuple(R(x) for x in e[0])
+                h.add_edge(ee, e[1], **kw)
+                h.set_weight(ee, e[1], w0)
         if not desc["weighted"] and desc["edges"]:
             # re-insert the first record, listed in the original order (idempotent for unweighted containers);
             # its metadata is passed again so that the content stays the same
